@@ -17,8 +17,9 @@
 package c07
 
 import (
-	"context"
+	"bufio"
 	"encoding/json"
+	"io"
 	"fmt"
 	"os"
 	"os/exec"
@@ -392,66 +393,163 @@ func keepReport(raw string) {
 	fmt.Fprintf(f, "==================\nWARNING: DATA RACE\n%s\n==================\n", raw)
 }
 
+// child is the long-lived child process of the -race build that runs the
+// workloads (starting a race-instrumented Gaea costs seconds, a workload
+// milliseconds). Requests go to its stdin, one JSON workload per line; replies
+// come back on fd 3; its race reports go to <dir>/race.<pid>, and everything the
+// runtime appended while a workload ran belongs to that workload (all sessions
+// have finished before the child replies). The race runtime reports a given pair
+// of stacks once per process, so the child is restarted after every workload
+// that produced an unclassified report (shrinking then starts from a clean process).
+type child struct {
+	cmd    *exec.Cmd
+	stdin  io.WriteCloser
+	reply  *bufio.Reader
+	replyF *os.File
+	dir    string
+	offset map[string]int64
+	served int
+}
+
+var theChild *child
+
+func startChild() (*child, error) {
+	dir, err := os.MkdirTemp("", "verif-c07-")
+	if err != nil {
+		return nil, err
+	}
+	pr, pw, err := os.Pipe()
+	if err != nil {
+		os.RemoveAll(dir)
+		return nil, err
+	}
+	self, err := os.Executable()
+	if err != nil {
+		self = os.Args[0]
+	}
+	cmd := exec.Command(self, "-test.run", "^TestC07RaceChild$", "-test.count", "1", "-test.timeout", "0")
+	for _, kv := range os.Environ() {
+		if strings.HasPrefix(kv, "GORACE=") || strings.HasPrefix(kv, "VERIF_REPLAY=") || strings.HasPrefix(kv, "C07_") {
+			continue
+		}
+		cmd.Env = append(cmd.Env, kv)
+	}
+	cmd.Env = append(cmd.Env, "C07_CHILD_SERVE=1",
+		"GORACE=log_path="+filepath.Join(dir, "race")+" halt_on_error=0 exitcode=0")
+	cmd.Dir = dir
+	cmd.ExtraFiles = []*os.File{pw} // fd 3 in the child
+	cmd.Stdout, cmd.Stderr = nil, nil
+	stdin, err := cmd.StdinPipe()
+	if err == nil {
+		err = cmd.Start()
+	}
+	pw.Close()
+	if err != nil {
+		pr.Close()
+		os.RemoveAll(dir)
+		return nil, err
+	}
+	return &child{cmd: cmd, stdin: stdin, reply: bufio.NewReaderSize(pr, 1<<20), replyF: pr, dir: dir, offset: map[string]int64{}}, nil
+}
+
+func (c *child) stop() {
+	if c == nil {
+		return
+	}
+	c.stdin.Close()
+	done := make(chan struct{})
+	go func() { c.cmd.Wait(); close(done) }()
+	select {
+	case <-done:
+	case <-time.After(10 * time.Second):
+		c.cmd.Process.Kill()
+		<-done
+	}
+	c.replyF.Close()
+	os.RemoveAll(c.dir)
+}
+
+// run sends one workload and returns its result and the race reports written meanwhile.
+func (c *child) run(w workload) (runResult, []raceReport, error) {
+	var res runResult
+	b, _ := json.Marshal(w)
+	if _, err := c.stdin.Write(append(b, '\n')); err != nil {
+		return res, nil, fmt.Errorf("write to child: %v", err)
+	}
+	type rd struct {
+		line []byte
+		err  error
+	}
+	ch := make(chan rd, 1)
+	go func() { l, err := c.reply.ReadBytes('\n'); ch <- rd{l, err} }()
+	var line []byte
+	select {
+	case r := <-ch:
+		if r.err != nil {
+			return res, nil, fmt.Errorf("child died: %v", r.err)
+		}
+		line = r.line
+	case <-time.After(5 * time.Minute):
+		return res, nil, fmt.Errorf("child timed out")
+	}
+	if err := json.Unmarshal(line, &res); err != nil {
+		return res, nil, fmt.Errorf("bad reply from child: %v", err)
+	}
+	c.served++
+	var reports []raceReport
+	logs, _ := filepath.Glob(filepath.Join(c.dir, "race.*"))
+	sort.Strings(logs)
+	for _, p := range logs {
+		f, err := os.Open(p)
+		if err != nil {
+			continue
+		}
+		f.Seek(c.offset[p], 0)
+		nb, _ := io.ReadAll(f)
+		f.Close()
+		c.offset[p] += int64(len(nb))
+		reports = append(reports, parseRaceLog(string(nb))...)
+	}
+	return res, reports, nil
+}
+
 func checkRace(c workload, rec *pbt.Recorder) (o pbt.Outcome) {
 	if s := validWorkload(c); s != "" {
 		o.Skip = s
 		return
 	}
 	o.NonTrivial, o.Labels = classify(c)
-	dir, err := os.MkdirTemp("", "verif-c07-")
-	if err != nil {
-		o.Skip = "no temp dir: " + err.Error()
-		return
-	}
-	defer os.RemoveAll(dir)
-	cb, _ := json.Marshal(c)
-	casePath, outPath := filepath.Join(dir, "case.json"), filepath.Join(dir, "out.json")
-	if err := os.WriteFile(casePath, cb, 0o644); err != nil {
-		o.Skip = "cannot write case: " + err.Error()
-		return
-	}
-	ctx, cancel := context.WithTimeout(context.Background(), 5*time.Minute)
-	defer cancel()
-	cmd := exec.CommandContext(ctx, os.Args[0], "-test.run", "^TestC07RaceChild$", "-test.count", "1", "-test.timeout", "0")
-	var envv []string
-	for _, kv := range os.Environ() {
-		if strings.HasPrefix(kv, "GORACE=") || strings.HasPrefix(kv, "VERIF_REPLAY=") || strings.HasPrefix(kv, "C07_") {
-			continue
+	if theChild == nil {
+		ch, err := startChild()
+		if err != nil {
+			o.Skip = "cannot start child: " + err.Error()
+			return
 		}
-		envv = append(envv, kv)
+		theChild = ch
+		o.Labels = append(o.Labels, "child_started")
 	}
-	envv = append(envv, "C07_CHILD_CASE="+casePath, "C07_CHILD_OUT="+outPath,
-		"GORACE=log_path="+filepath.Join(dir, "race")+" halt_on_error=0 exitcode=0 history_size=2")
-	cmd.Env = envv
-	cmd.Dir = dir
-	outb, runErr := cmd.CombinedOutput()
-	rb, rerr := os.ReadFile(outPath)
-	if rerr != nil {
-		o.Skip = fmt.Sprintf("child produced no result (%v): %s", runErr, tail(string(outb), 400))
+	res, reports, err := theChild.run(c)
+	restart := func() { theChild.stop(); theChild = nil }
+	if err != nil {
+		restart()
+		o.Skip = err.Error()
 		return
 	}
-	var res runResult
-	if json.Unmarshal(rb, &res) != nil || res.Err != "" {
+	if res.Err != "" {
 		o.Skip = "child failed: " + res.Err
 		return
 	}
 	if len(res.Mismatches) > 0 {
+		restart()
 		o.Violation = fmt.Sprintf("%d statement(s) planned differently under concurrency; first: %s", len(res.Mismatches), res.Mismatches[0])
 		return
-	}
-	var reports []raceReport
-	logs, _ := filepath.Glob(filepath.Join(dir, "race.*"))
-	sort.Strings(logs)
-	for _, p := range logs {
-		if b, err := os.ReadFile(p); err == nil {
-			reports = append(reports, parseRaceLog(string(b))...)
-		}
 	}
 	o.Labels = append(o.Labels, fmt.Sprintf("race_reports_%d", min(len(reports), 5)))
 	var knownWhat string
 	for _, r := range reports {
 		keepReport(r.Raw)
 		if len(r.Accesses) < 2 {
+			restart()
 			o.Violation = "race report that could not be parsed: " + tail(r.Raw, 1500)
 			return
 		}
@@ -479,6 +577,7 @@ func checkRace(c workload, rec *pbt.Recorder) (o pbt.Outcome) {
 			}
 			continue
 		}
+		restart()
 		o.Violation = "data race in Gaea while sessions plan concurrently: " + summarize(r)
 		return
 	}
@@ -500,31 +599,40 @@ func TestC07Race(t *testing.T) {
 		t.Skip("needs the -race build (the driver runs it with VERIF_RACE=1)")
 	}
 	fixtureOK(t)
-	pbt.RunWith(t, pbt.Spec{ID: "C07", Sub: "race", Quick: 40, Thorough: 500,
-		Rule: "same workloads as sub-check plans, each run in a child process of the -race build with its own GORACE log (halt_on_error=0); plan equality is checked in the child, every race report with a Gaea frame is judged by the parent; non-trivial as in plans",
+	ch, err := startChild()
+	if err != nil {
+		t.Fatalf("cannot start the child process: %v", err)
+	}
+	theChild = ch
+	defer func() { theChild.stop(); theChild = nil }()
+	pbt.RunWith(t, pbt.Spec{ID: "C07", Sub: "race", Quick: 60, Thorough: 1500,
+		Rule: "same workloads as sub-check plans, each run in a long-lived child process of the -race build with its own GORACE log (halt_on_error=0; reports are attributed to the workload during which they were written; the runtime reports one pair of stacks once per process, so known_hits count distinct racing stack pairs, not workloads); plan equality is checked in the child, every race report with a Gaea frame is judged by the parent; non-trivial as in plans",
 		Floor: 0.5}, genWorkload, checkRace)
 }
 
-// TestC07RaceChild is the child side: it only runs when the parent passes a case file.
+// TestC07RaceChild is the child side: it serves workloads from stdin until EOF.
 func TestC07RaceChild(t *testing.T) {
-	casePath, outPath := os.Getenv("C07_CHILD_CASE"), os.Getenv("C07_CHILD_OUT")
-	if casePath == "" || outPath == "" {
+	if os.Getenv("C07_CHILD_SERVE") == "" {
 		t.Skip("child side of TestC07Race")
 	}
-	var res runResult
-	b, err := os.ReadFile(casePath)
-	var c workload
-	if err == nil {
-		err = json.Unmarshal(b, &c)
-	}
-	if err != nil {
-		res.Err = err.Error()
-	} else {
-		res = runWorkload(c)
-	}
-	ob, _ := json.Marshal(res)
-	if err := os.WriteFile(outPath, ob, 0o644); err != nil {
-		t.Fatal(err)
+	out := os.NewFile(3, "reply")
+	in := bufio.NewReaderSize(os.Stdin, 1<<20)
+	for {
+		line, err := in.ReadBytes('\n')
+		if len(line) > 0 {
+			var res runResult
+			var c workload
+			if jerr := json.Unmarshal(line, &c); jerr != nil {
+				res.Err = jerr.Error()
+			} else {
+				res = runWorkload(c)
+			}
+			ob, _ := json.Marshal(res)
+			out.Write(append(ob, '\n'))
+		}
+		if err != nil {
+			return
+		}
 	}
 }
 
